@@ -50,11 +50,14 @@ pub struct ChanCfg {
     pub kind: u8,
     pub resend_ms: u64,
     pub max_mem: usize,
+    /// the configured resend time is half a millisecond shorter than `resend_ms`: on clocks that move in whole
+    /// milliseconds that is the same schedule (elapsed < R - 0.5 ms  <=>  elapsed < R), but no longer a whole number
+    pub half_ms: bool,
 }
 
 impl ChanCfg {
     fn to_renet(&self) -> ChannelConfig {
-        let resend_time = Duration::from_millis(self.resend_ms);
+        let resend_time = if self.half_ms && self.resend_ms >= 1 { Duration::from_micros(self.resend_ms * 1000 - 500) } else { Duration::from_millis(self.resend_ms) };
         ChannelConfig {
             channel_id: self.id,
             max_memory_usage_bytes: self.max_mem,
@@ -254,6 +257,7 @@ fn chans_from_cfg(cfg: &Cfg, prefix: &str) -> Vec<ChanCfg> {
             kind: cfg.get(&format!("{}{}_kind", prefix, k)) as u8,
             resend_ms: cfg.get(&format!("{}{}_resend", prefix, k)),
             max_mem: cfg.get(&format!("{}{}_mem", prefix, k)) as usize,
+            half_ms: cfg.get("halfms") == 1,
         })
         .collect()
 }
@@ -497,6 +501,7 @@ pub fn gen_cfg(family: &str, rng: &mut Rng) -> Cfg {
     let mem_menu: &[u64] = match fam {
         Fam::Budget | Fam::Lossy => &[3000, 5000, 20_000, 200_000, 200_000, 5 << 20],
         Fam::Hostile => &[5000, 20_000, 20_000, 200_000, 5 << 20],
+        Fam::Multi => &[3000, 5000, 20_000, 200_000, 5 << 20],
         _ => &[20_000, 200_000, 5 << 20],
     };
     let same_lists = rng.chance(1, 2);
@@ -546,6 +551,9 @@ pub fn gen_cfg(family: &str, rng: &mut Rng) -> Cfg {
         let t = *rng.pick(&[60u64, 16_380, (1 << 30) - 40, (1u64 << 62) - 100_000_000]);
         cfg.set("tele_mid", t);
     }
+    if matches!(fam, Fam::Budget | Fam::Lossy) && rng.chance(1, 4) {
+        cfg.set("halfms", 1);
+    }
     if matches!(fam, Fam::Budget) && same_lists && rng.chance(1, 4) {
         // the clients are the server's own in-memory local clients (new_local_client), still joined to it by the simulated
         // link: the configured budgets and channels hold for them as for any other client
@@ -562,6 +570,9 @@ pub fn gen_cfg(family: &str, rng: &mut Rng) -> Cfg {
             cfg.set("steamlike", *rng.pick(&[0u64, 0, 1]));
         }
         Fam::Multi => {
+            // an application that does not look at can_send_message before it sends or broadcasts: a reliable channel that
+            // cannot take a message disconnects that client (and only that client)
+            cfg.set("overflow", *rng.pick(&[0u64, 0, 1]));
             cfg.set("idmode", *rng.pick(&[0u64, 0, 1]));
             if rng.chance(1, 3) {
                 cfg.set("hostile", 1 << rng.below(ncl));
